@@ -157,6 +157,10 @@ class LibMixin:
         if not smt.is_const(name.ts[0]):
             raise Unsupported("hasattr with symbolic name")
         attr = smt.const_val(name.ts[0])
+        if v.ty.kind == "opt" and v.ty.args[0].kind == "ref":
+            inner = opt_inner(v)
+            t = self.typeof(inner.ts[0])
+            return mk_bool(smt.And(smt.Not(v.ts[0]), smt.app(self.ctx.fun("cls_hasattr_" + attr, [INT], BOOL), BOOL, t)))
         if v.ty.kind == "ref" or v.ty.kind == "cls":
             t = v.ts[0] if v.ty.kind == "cls" else self.typeof(v.ts[0])
             return mk_bool(smt.app(self.ctx.fun("cls_hasattr_" + attr, [INT], BOOL), BOOL, t))
@@ -404,6 +408,12 @@ class LibMixin:
                 # instance of the lemma joinr(xs ++ [s]) == joinr(xs) ++ s (proved once, see lemma obligations)
                 self.lemmas_used.add("joinr_append")
                 st.assume(smt.Eq(self.join_empty(new[0]), smt.Concat(self.join_empty(recv.ts[0]), v.ts[0])))
+            if elty.kind == "ref" and not front and "cons" in self.defined_specs:
+                # instance of the lemma cons(xs + [o]) == cons(xs) + consumed(o) (proved once per function)
+                self.lemmas_used.add("cons_append")
+                old_l, new_l = SV(ListT(Ref()), recv.ts), SV(ListT(Ref()), new)
+                st.assume(smt.Eq(self.spec_app("cons", [new_l], st).ts[0],
+                                 smt.Concat(self.spec_app("cons", [old_l], st).ts[0], self.spec_app("consumed", [SV(Ref(), v.ts)], st).ts[0])))
             self.assign_to(recv_ast, SV(recv.ty, new), st, exc)
             return [(st, NONE)]
         if name in ("pop", "popleft"):
@@ -469,7 +479,7 @@ class LibMixin:
             st.assume(smt.And(smt.Le(smt.Int(0), j), smt.Lt(j, n), smt.Eq(smt.At(c, j), x)))
             inner = smt.Implies(smt.And(smt.Le(smt.Int(0), iv), smt.Lt(iv, j)), smt.Not(smt.Eq(smt.At(c, iv), x)))
             q = smt.Forall([("i!rm", INT)], inner)
-            self.ctx.qreg[q.s] = ("i!rm", inner.s)
+            self.ctx.qreg[q.s] = ("i!rm", inner.s, INT)
             st.assume(q)
             new = smt.Concat(smt.Substr(c, smt.Int(0), j), smt.Substr(c, smt.Add(j, smt.Int(1)), smt.Sub(n, smt.Add(j, smt.Int(1)))))
             self.assign_to(recv_ast, SV(recv.ty, [new]), st, exc)
